@@ -9,6 +9,7 @@ import (
 	"os"
 	"os/exec"
 	"path/filepath"
+	"strings"
 )
 
 func buildReplay(vdir string, prog *Program, o checkOpts, ob *Obligation) (string, bool) {
@@ -28,6 +29,16 @@ func buildReplay(vdir string, prog *Program, o checkOpts, ob *Obligation) (strin
 			m = m[:20000]
 		}
 		data["model"] = m
+		// the values the model gives to the function's parameters (p_<name>), for a quick look
+		params := map[string]string{}
+		for k, v := range modelValues(ob.Model) {
+			if strings.HasPrefix(k, "p_") && len(v) < 200 {
+				params[k] = v
+			}
+		}
+		if len(params) > 0 {
+			data["model_parameters"] = params
+		}
 	}
 	if ob.replayer != nil {
 		if res := ob.replayer(ob, o.repo); res != nil {
